@@ -83,6 +83,7 @@ type simStream struct {
 	sends   int
 	flushes int
 	diedAt  time.Duration
+	bornAt  time.Duration
 }
 
 var _ tikvpb.Tikv_BatchCommandsClient = (*simStream)(nil)
@@ -577,7 +578,7 @@ func (w *world) newStream(cc *grpc.ClientConn, fwd, connIdx string) (tikvpb.Tikv
 		w.tracef("newStream %s fwd=%q: fails", c.uid, fwd)
 		return nil, streamBroken("cannot create stream")
 	}
-	s := &simStream{w: w, conn: c, fwd: fwd, connIdx: connIdx, notify: make(chan struct{}, 1)}
+	s := &simStream{w: w, conn: c, fwd: fwd, connIdx: connIdx, notify: make(chan struct{}, 1), bornAt: w.sim.Now()}
 	// the name must not depend on the order in which streams of different
 	// forwarding targets are created (the library ranges over a Go map there)
 	nth := 0
